@@ -752,10 +752,14 @@ class Saver:
 
                 for chunk in chunks:
                     new_f = self.save(chunk=chunk, chunk_i=chunk_i, executor=executor)
-                    pending = [f for f in pending if not f.done()]
+                    pending = self._check_done(pending)
                     if new_f is not None:
                         pending += [new_f]
                     chunk_i += 1
+
+            # Failed writes must fail the save, not be lost with their future
+            done, _ = wait(pending, timeout=self.timeout)
+            pending = self._check_done(pending)
 
         except strax.MailboxKilled:
             # Write exception (with close), but exit gracefully.
@@ -773,6 +777,17 @@ class Saver:
         finally:
             if not self.closed:
                 self.close(wait_for=pending)
+
+    @staticmethod
+    def _check_done(pending):
+        """Return the futures still running; raise if a completed one failed."""
+        still_pending = []
+        for f in pending:
+            if f.done():
+                f.result()
+            else:
+                still_pending.append(f)
+        return still_pending
 
     def save(self, chunk: strax.Chunk, chunk_i: int, executor=None):
         """Save a chunk, returning future to wait on or None."""
